@@ -35,8 +35,11 @@ def conclude(pid, tier, t0, parts, level="model_checking", extra=None):
             cov.pop(k)
     assumptions = [a for p in parts for a in p["assumptions"]]
     write_evidence(pid, tier, level, cov, assumptions, time.time() - t0, violations=len(violations))
+    seen_kf = {}
     for kf, rec in knowns:
-        say("KNOWN-FINDING: property=%s %s [%s]" % (pid, kf.get("what"), rec.get("instance") or rec.get("lemma")))
+        seen_kf.setdefault(kf.get("id") or kf.get("what"), [kf, 0, rec])[1] += 1
+    for key, (kf, n, rec) in seen_kf.items():
+        say("KNOWN-FINDING: property=%s %s [%s; %d matching obligation(s)/instance(s)]" % (pid, kf.get("what"), rec.get("instance") or rec.get("lemma"), n))
     for r in violations:
         say("VIOLATION property=%s replay=%s" % (pid, r["replay"]))
         for k in ("instance", "lemma", "check", "concrete_values", "scenario", "native_replay", "observed"):
